@@ -104,6 +104,8 @@ var c20ControlExpect = []struct{ keyPart, status string }{
 	{"CtlFieldWrite#writes-verifcontrols.Keeper", "violated"},
 	{"CtlMapFieldWrite#writes-verifcontrols.Keeper.cache", "violated"},
 	{"CtlSyncMapStore#Map.Store-on-verifcontrols.Keeper.seen", "violated"},
+	{"CtlMapFieldDelete#delete-on-verifcontrols.Keeper.cache", "violated"},
+	{"CtlMapFieldPassed#passes-verifcontrols.Keeper.cache-to-ctlFill", "violated"},
 }
 
 // runC20Controls: the process-local-write detector (C20 R1) over the control package.
@@ -137,7 +139,7 @@ func runC20Controls(r *Run) {
 		}
 	}
 	for _, o := range r2.Obls {
-		if o.Status == "violated" && (strings.Contains(o.Key, "CtlLocalCopy") || strings.Contains(o.Key, "CtlClean")) {
+		if o.Status == "violated" && (strings.Contains(o.Key, "CtlLocalCopy") || strings.Contains(o.Key, "CtlClean") || strings.Contains(o.Key, "CtlLocalMapPassed")) {
 			r.Fail("negative control fired: %s", o.Key)
 		}
 	}
